@@ -231,19 +231,23 @@ def _mk_fault(rng: random.Random, n: int) -> List:
 
 
 def gen(prop: str, rng: random.Random, tier: str) -> Dict[str, Any]:
-    return gen_c12(rng, tier) if prop == "C12" else gen_c13(rng, tier)
+    case = gen_c12(rng, tier) if prop == "C12" else gen_c13(rng, tier)
+    # start method of the simulated multiprocessing context: "fork" (three quarters of the cases; the real default) lets every worker
+    # inherit all descriptors open in the parent when it is started; decided from the schedule seed, so no extra draw shifts the generator
+    case["start_method"] = "fork" if case["sched_seed"] % 4 else "spawn"
+    return case
 
 
 # ------------------------------------------------------------------------------------------------
 # running
 # ------------------------------------------------------------------------------------------------
 class Patched:
-    def __init__(self, sched: Scheduler, ctx: kernel.Ctx):
+    def __init__(self, sched: Scheduler, ctx: kernel.Ctx, fork_inherit: bool = False):
         import agilerl.vector.pz_async_vec_env as pz
 
         self.pz = pz
         self.saved = (pz.mp, pz.time, pz.np)
-        self.simmp = SimMP(sched, counter=ctx.probe)
+        self.simmp = SimMP(sched, counter=ctx.probe, fork_inherit=fork_inherit)
         pz.mp = self.simmp
         pz.time = SimTime(sched)
         pz.np = NpProxy(sched, np)
@@ -299,7 +303,7 @@ def _run_one(ctx: kernel.Ctx, prop: str, case: Dict[str, Any], sched_seed: int) 
         if case.get("target") == "wrapper":
             _run_wrapper(ctx, case, loc)
         else:
-            patched = Patched(sched, ctx)
+            patched = Patched(sched, ctx, fork_inherit=case.get("start_method") == "fork")
             if prop == "C12":
                 _run_c12(ctx, case, sched, world, patched, loc)
             else:
